@@ -168,6 +168,11 @@ BAD_EXPR = {
     "dup-default": "$x ->\n       *[one] 1\n       *[other] 2\n    ",
     "dup-default-separated": "$x ->\n       *[zero] 0\n        [one] 1\n       *[other] 2\n    ",
     "dup-default-far": "$x ->\n       *[zero] 0\n        [one] 1\n        [two] 2\n        [few] 3\n       *[other] 4\n    ",
+    # the select that lacks a default (or has two) HOLDS a well-formed nested select with its own default: whether a
+    # default was seen is a fact about ONE select, not about the innermost or the latest one
+    "no-default-nested": "$x ->\n        [one] { $y ->\n           *[a] A\n        }\n        [other] 2\n    ",
+    "no-default-nested-last": "$x ->\n        [one] 1\n        [other] { $y ->\n            [a] A\n           *[b] B\n        }\n    ",
+    "dup-default-nested-between": "$x ->\n       *[one] { $y ->\n           *[a] A\n        }\n       *[other] 2\n    ",
     "msgref-selector": "msg ->\n       *[other] 2\n    ",
     "msgattr-selector": "msg.attr ->\n       *[other] 2\n    ",
     "termref-selector": "-term ->\n       *[other] 2\n    ",
